@@ -10,6 +10,9 @@ pub const TOL32: f64 = 64.0 / 16777216.0; // 64 · 2^-24 = 3.8e-6
 pub const TOL64: f64 = 1e-12;
 pub const TOL_NOTE: &str = "f32: 64·2^-24 = 3.8e-6, f64: 1e-12; absolute, in premultiplied terms, × max(1, |expected|). Each formula is ≤ ~12 roundings of O(1) intermediates; worst rounding error observed on the pinned tree (thorough lattice): 0.037·tol = 1.4e-7 in f32 (27× slack), 4.4e-4·tol = 4.4e-16 in f64; every realistic property-breaking change moves some lattice result by ≥ 1e-3 (260× tol). Round trip premultiply/unpremultiply: 16 eps relative (observed ≤ 1 eps)";
 
+/// relative tolerance of Porter-Duff results, in units of eps (≤ ~6 roundings: premultiply, 1 − α,
+/// two products, a sum, the final division)
+pub const REL_K: f64 = 16.0;
 pub fn tol<T: Fl>() -> f64 {
     if T::NAME == "f32" {
         TOL32
@@ -50,6 +53,7 @@ pub struct Local {
     pub trans: u64,
     pub traces: u64,
     pub best: f64,
+    pub best_rel: f64,
     pub k: u64,
 }
 
@@ -147,6 +151,30 @@ pub fn check_pair<T: Fl>(sp: &Spec<T>, level: &'static str, sub: &str, form: For
         } else if !(err <= t * scale) {
             c.violation(&sig(e.region[i], "value"), err, || case("result component differs from the W3C formula (premultiplied terms)", json!(i)));
         }
+        // Porter-Duff operators on non-negative inputs are sums of products of non-negative terms
+        // (1 − α is exact or correctly rounded): no cancellation, so every result component is accurate
+        // RELATIVE to its own size, however small — in premultiplied terms and, for the straight-alpha
+        // form, after the final division too.
+        // (xor's published alpha, αs + αb − 2αsαb, does cancel: its straight-alpha colours are exempt)
+        if !op.is_blend() && !(op == Op::Xor && form == Form::Alpha) && e.region[i] != "cs+cb>1" && e.lo[i] == e.hi[i] && excess <= t && err <= t * scale {
+            let want = match form {
+                Form::Alpha => if e.alpha > 1e-30 { e.lo[i] / e.alpha } else { 0.0 },
+                _ => e.lo[i],
+            };
+            if want > 1e-30 {
+                let rel = (x - want).abs() / want;
+                let rt = REL_K * T::EPS;
+                l.traces += 1;
+                if rel <= rt {
+                    if rel / rt > l.best_rel {
+                        l.best_rel = rel / rt;
+                        c.ratio(&format!("{sub}/compose-relative"), rel / rt, || case("largest relative error/tolerance of a Porter-Duff result so far", json!(i)));
+                    }
+                } else {
+                    c.violation(&sig(e.region[i], "relative"), rel, || case("Porter-Duff result component is not accurate relative to its own size (cancellation)", json!(i)));
+                }
+            }
+        }
         if form == Form::Alpha && o64.a == 0.0 && x != 0.0 {
             c.violation(&sig(e.region[i], "nonzero-colour-at-zero-alpha"), x.abs(), || case("straight-alpha result with alpha 0 must be the zero colour", json!(i)));
         }
@@ -167,6 +195,12 @@ pub fn check_pair<T: Fl>(sp: &Spec<T>, level: &'static str, sub: &str, form: For
                 c.violation(&sig("alpha", "range"), excess, || case("result alpha outside [0,1]", json!("alpha")));
             } else if !(err <= t) {
                 c.violation(&sig("alpha", "value"), err, || case("result alpha differs from the W3C formula", json!("alpha")));
+            } else if !op.is_blend() && op != Op::Xor && e.alpha > 1e-30 {
+                let rel = (a - e.alpha).abs() / e.alpha;
+                l.traces += 1;
+                if !(rel <= REL_K * T::EPS) {
+                    c.violation(&sig("alpha", "relative"), rel, || case("Porter-Duff result alpha is not accurate relative to its own size (cancellation)", json!("alpha")));
+                }
             }
         }
     }
